@@ -483,7 +483,7 @@ package kcp
 //@   loop 1 invariant kcp.snd_wnd == old(kcp.snd_wnd) && kcp.rcv_wnd == old(kcp.rcv_wnd)
 //@   loop 1 invariant kcp.snd_queue == old(kcp.snd_queue) && kcp.snd_buf == old(kcp.snd_buf) && kcp.rcv_queue == old(kcp.rcv_queue) && kcp.rcv_buf == old(kcp.rcv_buf)
 //
-//@ func KCP.Recv
+//@ func KCP.Recv counted
 //@   ensures @C01 [receive-queue-in-sequence-order] old(kcp.rcvQ()) ==> kcp.rcvQ()
 //@   ensures @C04 [a-window-reopened-by-the-reader-is-announced] result >= 0 && old(kcp.rcv_queue.rlen()) >= kcp.rcv_wnd && kcp.rcv_queue.rlen() < kcp.rcv_wnd ==> (kcp.probe / 2) % 2 == 1
 //@   loop 1 invariant old(kcp.rcvQ()) ==> kcp.rcvQ()
@@ -895,6 +895,7 @@ package kcp
 //@   section UDPSession.mu ensures @C01 [leftover-served-first-and-consumed-exactly] old(len(s.bufptr)) > 0 ==> n == min(len(b), old(len(s.bufptr)))
 //@        && ref(s.bufptr) == old(ref(s.bufptr)) && off(s.bufptr) == old(off(s.bufptr)) + n && len(s.bufptr) == old(len(s.bufptr)) - n
 //@        && (forall j int :: 0 <= j && j < n ==> b[j] == old(s.bufptr[j]))
+//@   section UDPSession.mu ensures @C01 [one-read-takes-at-most-one-message-from-the-core] calls(KCP.Recv, s.kcp) <= old(calls(KCP.Recv, s.kcp)) + 1
 //@   section UDPSession.mu ensures @C01 [core-not-read-while-leftover-remains] old(len(s.bufptr)) > 0 ==> s.kcp.rcv_nxt == old(s.kcp.rcv_nxt) && s.kcp.rcv_queue.rlen() == old(s.kcp.rcv_queue.rlen())
 //@   section UDPSession.mu ensures @C01 [new-leftover-is-the-unread-tail] old(len(s.bufptr)) == 0 && len(s.bufptr) > 0 ==> ref(s.bufptr) == ref(s.recvbuf)
 //@        && off(s.bufptr) + len(s.bufptr) == off(s.recvbuf) + len(s.recvbuf) && n + len(s.bufptr) == len(s.recvbuf) && n == len(b)
